@@ -8,6 +8,7 @@ are regenerated from the sources on every run (`Clvm.Gen`).
 import ClvmModel.Serde.Classic
 import ClvmProofs.Lemmas.ClassicSer
 import ClvmProofs.Lemmas.ClassicCanon
+import ClvmProofs.Lemmas.ClassicProbe
 
 namespace Clvm.Props.C15
 open Clvm Clvm.Serde.Classic
@@ -129,6 +130,23 @@ theorem len_trusted (t : Tree) (ht : t.atomsBelow (2 ^ 34)) (rest : Bytes) :
     simp only [List.length_append]; omega
   rw [this, lenTrusted]
   simp
+
+/-- `len_untrusted`: the untrusted (back-reference aware) probe `serialized_length_from_bytes`
+returns the length of the first tree, as long as its private allocator does not run out of pairs:
+it allocates one pair per atom and two per pair (`probeCost`), against `MAX_NUM_PAIRS` -/
+theorem len_untrusted (t : Tree) (ht : t.atomsBelow (2 ^ 34)) (rest : Bytes)
+    (hc : Gen.initGhostPairs + probeCost t ≤ Gen.maxNumPairs) :
+    Clvm.Serde.Backref.serializedLengthFromBytes (serSpec t ++ rest) = .ok (serSpec t).length :=
+  serializedLengthFromBytes_ser t ht rest hc
+
+/-- …which is always the case for a serialization that fits the default size limit of
+`node_to_bytes` (the quantifier of the property): 2 · 2 000 000 ≤ 62 500 000 -/
+theorem len_untrusted_of_fits (t : Tree) (ht : t.atomsBelow (2 ^ 34)) (rest : Bytes)
+    (hl : (serSpec t).length ≤ Gen.nodeToBytesLimit) :
+    Clvm.Serde.Backref.serializedLengthFromBytes (serSpec t ++ rest) = .ok (serSpec t).length := by
+  have h2 := probeCost_le t
+  have h3 : (serSpec t).length ≤ 2000000 := hl
+  exact len_untrusted t ht rest (by simp only [Gen.initGhostPairs, Gen.maxNumPairs]; omega)
 
 /-- `len_atom`: `serialized_length_atom` (a `u32` function: atoms below 2^32 bytes) is the length
 of the atom's encoding -/
